@@ -798,7 +798,8 @@ class AndMaybeMatcher(AdditiveBiMatcher):
         return skipped
 
     def weight(self):
-        if self.a.id() == self.b.id():
+        # As in score(): the optional matcher may already be exhausted
+        if self.b.is_active() and self.a.id() == self.b.id():
             return self.a.weight() + self.b.weight()
         else:
             return self.a.weight()
